@@ -60,8 +60,10 @@ def miri_run(pkg, mode, shards, extra_args=None, timeout=6 * 3600):
     return r
 
 
-def engine_part(name, pkg, mode, shards_quick=1, shards_thorough=NCPU, release_in_thorough=True, thorough_only=False, timeout=7200, asan=None, asan_args=None, miri=False, miri_args=None):
-    """asan: None | 'quick' (AddressSanitizer substrate in both tiers, at the quick bounds) | 'thorough' (thorough tier only)"""
+def engine_part(name, pkg, mode, shards_quick=1, shards_thorough=NCPU, release_in_thorough=True, thorough_only=False, timeout=7200, asan=None, asan_args=None, miri=False, miri_args=None, nda=True):
+    """asan: None | 'quick' (AddressSanitizer substrate in both tiers, at the quick bounds) | 'thorough' (thorough tier only)
+    nda: also run the quick enumeration on the `nda` profile (dev build cost, debug assertions and overflow checks OFF: what
+    debug_assert!, std's unsafe-precondition checks and overflow panics turn into in an optimised build), in both tiers"""
     def run(part, tier):
         cargo_build(pkg, 'dev')
         shards = shards_quick if tier == 'quick' else shards_thorough
@@ -69,6 +71,13 @@ def engine_part(name, pkg, mode, shards_quick=1, shards_thorough=NCPU, release_i
         for v in res['violations']:
             v['substrate'] = 'dev'
         subs = {'dev(opt-level=0,debug-assertions)': {'evaluations': res['result'].get('evaluations'), 'violations': len(res['violations'])}}
+        if nda:
+            cargo_build(pkg, 'nda')
+            r1 = run_engine(bin_path(pkg, 'nda'), mode, 'quick', shards=shards_quick, timeout=timeout, label='nda')
+            for v in r1['violations']:
+                v['substrate'] = 'nda'
+            res['violations'] += r1['violations']
+            subs['nda(opt-level=0,no debug assertions,no overflow checks)'] = {'evaluations': r1['result'].get('evaluations'), 'violations': len(r1['violations'])}
         if tier == 'thorough' and release_in_thorough:
             cargo_build(pkg, 'release')
             r2 = run_engine(bin_path(pkg, 'release'), mode, tier, shards=shards, timeout=timeout, label='release')
@@ -101,7 +110,7 @@ def engine_part(name, pkg, mode, shards_quick=1, shards_thorough=NCPU, release_i
             cargo_build(pkg, 'dev', toolchain='nightly', extra_env=ASAN_ENV, target_dir=asan_target(), extra_args=['--target', ASAN_TRIPLE])
             binary, env = bin_path(pkg, 'dev', asan_target(), ASAN_TRIPLE), ASAN_RUN_ENV
         else:
-            prof = 'release' if sub == 'release' else 'dev'
+            prof = sub if sub in ('release', 'nda') else 'dev'
             cargo_build(pkg, prof)
             binary, env = bin_path(pkg, prof), None
         rc, out, err = run_engine_once(binary, ['--mode', mode, '--tier', 'thorough', '--only', body['desc']], env, 600)
@@ -320,7 +329,7 @@ def hex_part():
         out = None
         subs = {}
         digests = {}
-        profiles = ['dev'] + (['release'] if tier == 'thorough' else [])
+        profiles = ['dev', 'nda'] + (['release'] if tier == 'thorough' else [])
         for prof in profiles:
             for pkg in ('e_hex', 'e_hex_fh'):
                 cargo_build(pkg, prof)
